@@ -540,16 +540,17 @@ impl Schedule {
 //@end
 
 // the non-custom variants read the schedule's own usage table (stubs: present so that a call to them type-checks)
-//@item solution/src/schedule.rs Schedule::number_of_vehicles_spawned_at : trusted
+//@item solution/src/schedule.rs Schedule::number_of_vehicles_spawned_at
 //@retname r
 //@sig
-    ensures r == spawned_total(self.depot_usage@, depot, self.network.vehicle_types.ids_sorted@),
+    requires spawned_total(self.depot_usage@, depot, self.network.vehicle_types.ids_sorted@) <= u32::MAX,
+    ensures r == spawned_total(self.depot_usage@, depot, self.network.vehicle_types.ids_sorted@), // @obl C02.number_of_vehicles_spawned_at.total_over_the_schedules_own_usage
 //@end
-//@item solution/src/schedule.rs Schedule::number_of_vehicles_of_same_type_spawned_at : trusted
+//@item solution/src/schedule.rs Schedule::number_of_vehicles_of_same_type_spawned_at
 //@retname r
 //@sig
     requires spawned_of_type(self.depot_usage@, depot, vehicle_type) <= u32::MAX,
-    ensures r == spawned_of_type(self.depot_usage@, depot, vehicle_type),
+    ensures r == spawned_of_type(self.depot_usage@, depot, vehicle_type), // @obl C02.number_of_vehicles_of_same_type_spawned_at.count_in_the_schedules_own_usage
 //@end
 
 //@item solution/src/schedule.rs Schedule::can_depot_spawn_vehicle_custom_usage
